@@ -479,6 +479,9 @@ func c04(c *wk.Ctx) {
 		}
 		r.Violationf("C04|outcome=process-aborted", json.RawMessage(d.Desc), "resume-enabled sync ended the process (exit %d): %s", d.Result.Exit, firstPanicLine(d.Result.Stderr))
 	}
+	if wk.ReplayOne(c, "c04hist", func(idx int) interface{} { return c04extra{CfgIdx: idx / 100000} }, onDeath) {
+		return
+	}
 	ncfg := c.N(8, 16)
 	per := c.N(2, 12)
 	wk.Parallel(ncfg, 16, func(i int) {
